@@ -70,7 +70,7 @@ def cases(tier, seed):
     out = []
     n = 36 if tier == 'quick' else 400
     for i in range(n):
-        crc_mode = ('random', 'collide', 'zero', 'ones', 'random', 'collide')[i % 6]
+        crc_mode = ('random', 'collide', 'zero', 'ones', 'near', 'collide', 'near')[i % 7]
         out.append({'seed': seed * 1000003 + i, 'nlog': rnd.randint(0, 12), 'nparam': rnd.randint(0, 12),
                     'proto': rnd.choice((10, 10, 3)), 'config': CONFIGS[i % len(CONFIGS)], 'crc': crc_mode,
                     'connect_samples': 6 if tier == 'quick' else 40, 'latin': i % 4 == 0})
@@ -137,6 +137,8 @@ def run(desc, ctx):
     if desc['crc'] == 'collide':
         prof['param_crc'] = prof['log_crc']
         ctx.count('mon.crc_collision_cases')
+    elif desc['crc'] == 'near':
+        prof['param_crc'] = prof['log_crc'] ^ rnd.choice((0x1, 0xF, 0x10, 0xF0000000))
     elif desc['crc'] == 'zero':
         prof['log_crc'] = 0
     elif desc['crc'] == 'ones':
